@@ -190,6 +190,8 @@ def main():
                 seen_c.add(kk)
                 c["tag"] = f"corpus{n}-{c['tag']}"
                 c["env"] = dict(c.get("env", {}), VERIF_SEED=e["seed"], VERIF_ONLY=e["case_index"])
+                if e.get("tier"):                       # an input that only the thorough generator produces (its case numbering differs)
+                    c["env"]["VERIF_TIER"] = e["tier"]
                 c["corpus"] = e.get("origin", "")
                 configs.append(c)
             configs.sort(key=lambda c: 0 if "corpus" in c else 1)
